@@ -308,8 +308,40 @@ class Compare(object):
                     self.violation('addressing:disagree:%s:%s' % (self.sim, name),
                                    'result %d table %s row %r column %r: by index %r, by column %r, by name %r, stored %r' % (i, name, names[ri], c, a, b, d, want))
                     return
+        # connection rows asked for with their two block names the other way round (user guide: same row, opposite sign);
+        # asking must not change what the table holds (the rows are looked at again afterwards)
+        if tab.num_rows and isinstance(names[0], tuple) and len(names[0]) == 2 and getattr(tab, 'allow_reverse_keys', False):
+            rowset = set(names)
+            snap = np.array(data, copy=True)          # what the table held when it was compared with the text
+            for ri in picks:
+                rev = tuple(names[ri][::-1])
+                if rev in rowset or len(seen_names[names[ri]]) > 1:
+                    continue
+                ctx.count('reversed_name_lookups')
+                for attempt in (1, 2):
+                    r = tab[rev]
+                    if not isinstance(r, dict) or r.get('key') != rev:
+                        self.violation('addressing:reversed-names:%s:%s' % (self.sim, name), 'result %d table %s: table[%r] gives %r' % (i, name, rev, type(r) if not isinstance(r, dict) else r.get('key')))
+                        return
+                    for c, k in last_col.items():
+                        want = -float(snap[ri][k])
+                        if not same_number(float(r[c]), want) and not (want == 0.0 and float(r[c]) == 0.0):
+                            self.violation('addressing:reversed-names:%s:%s' % (self.sim, name), 'result %d table %s row %r asked for as %r (%s time): column %r gives %r, the file prints %r for the row as listed' % (
+                                i, name, names[ri], rev, 'first' if attempt == 1 else 'second', c, float(r[c]), -want))
+                            return
+                back = tab[ri]
+                for c, k in last_col.items():
+                    if not same_number(float(back[c]), float(exp_row_value(exp, ri, k, float(snap[ri][k])))):
+                        self.violation('addressing:table-changed-by-reversed-lookup:%s:%s' % (self.sim, name), 'result %d table %s row %r column %r holds %r after being asked for under reversed names' % (
+                            i, name, names[ri], c, float(back[c])))
+                        return
         if len(occ_dupes(seen_names)):
             ctx.count('duplicate_row_names', len(occ_dupes(seen_names)))
+
+
+def exp_row_value(exp, ri, k, held_before):
+    """The value the table held for (row, column) when it was compared with the printed text (that comparison passed)."""
+    return held_before
 
 
 def occ_dupes(seen):
